@@ -50,12 +50,6 @@ theorem Loc.right {S T o1 o2 e1 e2 s1 s2 : List Id} (h : Loc S T (o1 ++ o2) (e1 
 theorem hydrateAttr_eq_init : hydrateAttr = AttrVal.initState := by
   funext a; cases a <;> rfl
 
-theorem static_plain : ∀ (as : List AttrVal), allStr as = true → as.all plainAttr = true
-  | [], _ => rfl
-  | a :: as, h => by
-    cases a <;> simp only [allStr] at h <;> try (cases h; done)
-    simp [plainAttr, static_plain as h]
-
 /-- one leaf node of the state in `E` -/
 theorem leaf_in_E {d0 E : Dom} {S T : List Id} (hE : EWorld d0 E S T) {i : Id} {r : NodeRec}
     (hi : i ∉ S) (hr : d0.get? i = some r) (k : Kind) (hk : r.kind = k) (p : Id) (hp : r.parent = some p)
@@ -73,7 +67,7 @@ theorem filter_keep_nil (S : List Id) : ([] : List Id).filter (keep S) = [] := r
 mutual
 theorem hyd_rep {d0 E : Dom} {S T : List Id} (hE : EWorld d0 E S T) : (v : View) → ∀ (anc : List Str) (p : Id)
     (pos : Position) (todo : List IdTree) (ts' : List HTree),
-    wfV anc v = true → AllEl StaticAttrs v → fullV v = true → realL d0 (dom v pos ++ ts') todo p →
+    wfV anc v = true → AllEl PlainAttrs v → fullV v = true → realL d0 (dom v pos ++ ts') todo p →
     Loc S T (owned (adopt v pos todo).1) (emptyIds (adopt v pos todo).1) (sepsOf v pos todo) →
     Rep Eq E v (adopt v pos todo).1 (some p) ∧
       ∃ consumed, todo = consumed ++ (adopt v pos todo).2 ∧ realL d0 ts' (adopt v pos todo).2 p ∧
@@ -205,7 +199,7 @@ theorem hyd_rep {d0 E : Dom} {S T : List Id} (hE : EWorld d0 E S T) : (v : View)
       simp only [AllEl] at ha
       simp only [fullV, Bool.and_eq_true, Bool.or_eq_true] at hf
       have hattr : r0.attrs = renderAttrs as := by
-        rw [hat0]; exact attrs_like_csr as (static_plain as ha.1.1) hattrs
+        rw [hat0]; exact attrs_like_csr as ha.1 hattrs
       have hi : i ∉ S := hl.own i (by
         by_cases hskip : (!viewExists child || !escKids tag) = true <;> simp [adopt, hskip, owned])
       obtain ⟨r', hg, hk', hp', ha', hkids', _⟩ := hE.get i r0 hi hr0
@@ -270,7 +264,7 @@ theorem hyd_rep {d0 E : Dom} {S T : List Id} (hE : EWorld d0 E S T) : (v : View)
         exact ⟨_, rfl, by rw [hkids', hkids0, h4], h1⟩
 theorem hyd_repL {d0 E : Dom} {S T : List Id} (hE : EWorld d0 E S T) : (vs : List View) → ∀ (anc : List Str) (p : Id)
     (pos : Position) (todo : List IdTree) (ts' : List HTree),
-    wfL anc vs = true → AllElList StaticAttrs vs → fullL vs = true → realL d0 (domL vs pos ++ ts') todo p →
+    wfL anc vs = true → AllElList PlainAttrs vs → fullL vs = true → realL d0 (domL vs pos ++ ts') todo p →
     Loc S T (ownedList (adoptL vs pos todo).1) (emptyIdsL (adoptL vs pos todo).1) (sepsOfL vs pos todo) →
     RepList Eq E vs (adoptL vs pos todo).1 (some p) ∧
       ∃ consumed, todo = consumed ++ (adoptL vs pos todo).2 ∧ realL d0 ts' (adoptL vs pos todo).2 p ∧
@@ -292,6 +286,48 @@ theorem hyd_repL {d0 E : Dom} {S T : List Id} (hE : EWorld d0 E S T) : (vs : Lis
     refine ⟨by simp only [adoptL, RepList]; exact ⟨h1, g1⟩, c1 ++ c2, ?_, by simpa [adoptL] using g3, ?_⟩
     · simp only [adoptL]; rw [List.append_assoc, ← g2]; exact h2
     · simp [adoptL, State.rootsList, List.filter_append, h4, g4]
+end
+
+mutual
+/-- `Rep` is monotone in the attribute relation -/
+theorem Rep.mono {R R' : List (String × String) → List (String × String) → Prop} (h : ∀ x y, R x y → R' x y) {d : Dom} :
+    ∀ (v : View) (st : State) (par : Option Id), Rep R d v st par → Rep R' d v st par
+  | .text _, st, _, hr => by cases st <;> simp only [Rep] at hr ⊢ <;> exact hr
+  | .unit, st, _, hr => by cases st <;> simp only [Rep] at hr ⊢ <;> exact hr
+  | .onone, st, _, hr => by cases st <;> simp only [Rep] at hr ⊢ <;> exact hr
+  | .osome v, st, par, hr => by
+    cases st <;> simp only [Rep] at hr ⊢
+    exact ⟨hr.1, Rep.mono h v _ par hr.2⟩
+  | .either _ _ v, st, par, hr => by
+    cases st <;> simp only [Rep] at hr ⊢
+    exact ⟨hr.1, Rep.mono h v _ par hr.2⟩
+  | .any _ v, st, par, hr => by
+    cases st <;> simp only [Rep] at hr ⊢
+    exact ⟨hr.1, Rep.mono h v _ par hr.2⟩
+  | .tuple vs, st, par, hr => by
+    cases st <;> simp only [Rep] at hr ⊢
+    exact RepList.mono h vs _ par hr
+  | .vec vs, st, par, hr => by
+    cases st <;> simp only [Rep] at hr ⊢
+    exact ⟨RepList.mono h vs _ par hr.1, hr.2⟩
+  | .elem tag as c, st, par, hr => by
+    cases st <;> simp only [Rep] at hr ⊢
+    obtain ⟨r, h1, h2, h3, h4, h5, h6⟩ := hr
+    refine ⟨r, h1, h2, h3, h _ _ h4, h5, ?_⟩
+    by_cases hv : isVoid tag = true
+    · simpa [hv] using h6
+    · simp only [hv, Bool.false_eq_true, if_false] at h6 ⊢
+      obtain ⟨c', e1, e2, e3⟩ := h6
+      exact ⟨c', e1, e2, Rep.mono h c c' _ e3⟩
+theorem RepList.mono {R R' : List (String × String) → List (String × String) → Prop} (h : ∀ x y, R x y → R' x y) {d : Dom} :
+    ∀ (vs : List View) (sts : List State) (par : Option Id), RepList R d vs sts par → RepList R' d vs sts par
+  | [], sts, _, hr => by cases sts <;> simp only [RepList] at hr ⊢
+  | v :: vs, sts, par, hr => by
+    cases sts with
+    | nil => simp only [RepList] at hr
+    | cons s ss =>
+      simp only [RepList] at hr ⊢
+      exact ⟨Rep.mono h v s par hr.1, RepList.mono h vs ss par hr.2⟩
 end
 
 end Leptos.Hydrate
